@@ -1,4 +1,5 @@
 import DFV.Model.Basic
 import DFV.Json
-import DFV.Drv.All
+import DFV.DrvLoop
+import DFV.Drv.C01
 import DFV.Props.C01
